@@ -18,6 +18,16 @@ CHECKS = {
         design="§4 C01", note=NOTE_BASE),
 }
 
+CHECKS["C02"] = dict(
+    text=("Machine-checked theorems (Props/C02.lean) about Gen/Avx2.lean, regenerated on every run from the intrinsics code of "
+          "goldilocks_base_field_avx.hpp over the intrinsic semantics of Isa/Avx2.lean: every lane of every kernel "
+          "(shift, canonicalise, add/sub incl. the 32-bit-compare variants, 128/72-bit products, both reductions, square) "
+          "is exact for ALL lane contents, the assumption-carrying kernels under exactly their documented operand "
+          "assumption, and the general kernels agree with the scalar ops of C01. Tie: regeneration + execution of the "
+          "generated definitions against the compiled kernels on this CPU."),
+    technique="Lean 4 proof over a model translated from the intrinsics code (clang AST) + CPU correspondence",
+    design="§4 C02", note=NOTE_BASE)
+
 NOT_YET = {
 }
 
